@@ -1423,7 +1423,44 @@ func operandVar(p *Program, fn *ssa.Function) types.Object {
 		}
 		return true
 	})
+	if obj == nil {
+		if d, lhs := decoderAssign(p, fn); d != nil && d.argIdx < len(lhs) {
+			if id, ok := lhs[d.argIdx].(*ast.Ident); ok {
+				obj = info.ObjectOf(id)
+			}
+		}
+	}
 	return obj
+}
+
+// decoderAssign: the statement `op, n, arg := decode(program, ip)` of fn —
+// the decoder's description and the left-hand sides.
+func decoderAssign(p *Program, fn *ssa.Function) (*decoder, []ast.Expr) {
+	fd := p.FuncDecl(fn)
+	info := p.Info(fn)
+	var dd *decoder
+	var lhs []ast.Expr
+	var args []ast.Expr
+	ast.Inspect(fd.Body, func(n ast.Node) bool {
+		as, ok := n.(*ast.AssignStmt)
+		if !ok || len(as.Rhs) != 1 || dd != nil {
+			return true
+		}
+		ce, ok := ast.Unparen(as.Rhs[0]).(*ast.CallExpr)
+		if !ok {
+			return true
+		}
+		f, ok := calleeObj(info, ce).(*types.Func)
+		if !ok {
+			return true
+		}
+		if d, ok := decoderOf(p.SSA.FuncValue(f)); ok && len(as.Lhs) == f.Type().(*types.Signature).Results().Len() {
+			dd, lhs, args = d, as.Lhs, ce.Args
+		}
+		return true
+	})
+	_ = args
+	return dd, lhs
 }
 
 // ---------------------------------------------------------------------------
@@ -1534,6 +1571,163 @@ func sameSet(a, b map[string]bool) bool {
 // vmJumpSet: opcodes whose handler assigns the instruction pointer from the
 // operand.
 func vmJumpSet(p *Program, a *anchors) (map[string]bool, bool) {
+	if J, ok := vmJumpSetSSA(p, a); ok {
+		return J, true
+	}
+	return vmJumpSetAST(p, a)
+}
+
+// vmJumpSetSSA: the opcodes under which the position of the next instruction
+// is computed from the operand.  The position is the loop-carried value that
+// indexes the program where the opcode is read; its next value is followed
+// back through merges and additions, and wherever a value made of the operand
+// arrives, the opcodes that can be current on that edge are collected.
+func vmJumpSetSSA(p *Program, a *anchors) (map[string]bool, bool) {
+	run := a.vmRun
+	dp := dispatchPoint(run)
+	if dp == nil {
+		return nil, false
+	}
+	// the opcode value, the position, the operand
+	var opVal, ipVal ssa.Value
+	operand := map[ssa.Value]bool{}
+	switch x := dp.(type) {
+	case *ssa.Call:
+		d, _ := decoderOf(x.Call.StaticCallee())
+		if d == nil || d.ipIdx >= len(x.Call.Args) {
+			return nil, false
+		}
+		ipVal = x.Call.Args[d.ipIdx]
+		for _, ref := range *x.Referrers() {
+			if ex, ok := ref.(*ssa.Extract); ok {
+				if ex.Index == d.opIdx {
+					opVal = ex
+				}
+				if ex.Index == d.argIdx {
+					operand[ex] = true
+				}
+			}
+		}
+	default:
+		opVal = dp.(ssa.Value)
+		var conv ssa.Value
+		switch c := dp.(type) {
+		case *ssa.Convert:
+			conv = c.X
+		case *ssa.ChangeType:
+			conv = c.X
+		}
+		if ld, ok := conv.(*ssa.UnOp); ok {
+			if ia, ok := ld.X.(*ssa.IndexAddr); ok {
+				ipVal = ia.Index
+			}
+		}
+		for _, b := range run.Blocks {
+			for _, ins := range b.Instrs {
+				if c, ok := ins.(*ssa.Call); ok {
+					if cal := c.Call.StaticCallee(); cal != nil && cal.Name() == "Uint16" || c.Call.IsInvoke() && c.Call.Method.Name() == "Uint16" {
+						operand[c] = true
+					}
+				}
+			}
+		}
+	}
+	ipPhi, ok := ipVal.(*ssa.Phi)
+	if !ok || opVal == nil || len(operand) == 0 {
+		return nil, false
+	}
+	// values that are the operand: conversions of it, and merges of it with constants
+	for changed := true; changed; {
+		changed = false
+		for _, b := range run.Blocks {
+			for _, ins := range b.Instrs {
+				v, isV := ins.(ssa.Value)
+				if !isV || operand[v] {
+					continue
+				}
+				switch x := ins.(type) {
+				case *ssa.Convert:
+					if operand[x.X] {
+						operand[v], changed = true, true
+					}
+				case *ssa.Phi:
+					n, all := 0, true
+					for _, e := range x.Edges {
+						if operand[e] {
+							n++
+						} else if _, isC := e.(*ssa.Const); !isC {
+							all = false
+						}
+					}
+					if n > 0 && all {
+						operand[v], changed = true, true
+					}
+				}
+			}
+		}
+	}
+	var madeOfOperand func(v ssa.Value, d int) bool
+	madeOfOperand = func(v ssa.Value, d int) bool {
+		if d > 4 {
+			return false
+		}
+		if operand[v] {
+			return true
+		}
+		if bo, ok := v.(*ssa.BinOp); ok && (bo.Op == token.ADD || bo.Op == token.SUB) {
+			return madeOfOperand(bo.X, d+1) || madeOfOperand(bo.Y, d+1)
+		}
+		return false
+	}
+	J := map[string]bool{}
+	undetermined := false
+	seen := map[ssa.Value]bool{}
+	var collect func(v ssa.Value, via *ssa.BasicBlock, d int)
+	collect = func(v ssa.Value, via *ssa.BasicBlock, d int) {
+		if d > 12 || v == ssa.Value(ipPhi) {
+			return
+		}
+		if madeOfOperand(v, 0) {
+			sets := opcodeSetsAt(p, run, via)
+			set := sets[stripConvSSA(opVal)]
+			if set == nil {
+				set = sets[opVal]
+			}
+			if set == nil {
+				undetermined = true
+				return
+			}
+			for k := range set {
+				J[k] = true
+			}
+			return
+		}
+		switch x := v.(type) {
+		case *ssa.Phi:
+			if seen[v] {
+				return
+			}
+			seen[v] = true
+			for i, e := range x.Edges {
+				collect(e, x.Block().Preds[i], d+1)
+			}
+		case *ssa.BinOp:
+			collect(x.X, via, d+1)
+			collect(x.Y, via, d+1)
+		case *ssa.Convert:
+			collect(x.X, via, d+1)
+		}
+	}
+	for i, e := range ipPhi.Edges {
+		collect(e, ipPhi.Block().Preds[i], 0)
+	}
+	if undetermined || len(J) == 0 {
+		return nil, false
+	}
+	return J, true
+}
+
+func vmJumpSetAST(p *Program, a *anchors) (map[string]bool, bool) {
 	sw := dispatchSwitch(p, a.vmRun)
 	info := p.Info(a.vmRun)
 	argObj := operandVar(p, a.vmRun)
@@ -1595,6 +1789,31 @@ func ipVar(p *Program, fn *ssa.Function) types.Object {
 		}
 		return true
 	})
+	if obj == nil {
+		// the position handed to a function that decodes the instruction
+		ast.Inspect(fd.Body, func(n ast.Node) bool {
+			ce, ok := n.(*ast.CallExpr)
+			if !ok || obj != nil {
+				return true
+			}
+			f, ok := calleeObj(info, ce).(*types.Func)
+			if !ok {
+				return true
+			}
+			if d, ok := decoderOf(p.SSA.FuncValue(f)); ok {
+				k := d.ipIdx
+				if f.Type().(*types.Signature).Recv() != nil {
+					k--
+				}
+				if k >= 0 && k < len(ce.Args) {
+					if id, ok := ast.Unparen(ce.Args[k]).(*ast.Ident); ok {
+						obj = info.Uses[id]
+					}
+				}
+			}
+			return true
+		})
+	}
 	return obj
 }
 
